@@ -9,6 +9,7 @@
 from __future__ import annotations
 
 import ast
+import re
 
 from .. import sqlshape
 from ..model import AnalysisError, norm
@@ -126,6 +127,50 @@ def cas_update_rule(rep, rid, s, obj: str, prog) -> None:
     rep.check(ok, rid, f"{name} conflict check", detail, s.file, checks[0].lineno if checks else s.line, disc=f"{name}:check")
 
 
+def _has_call_site(prog, fi) -> bool:
+    """a module-level function is live when some module that can see its name calls it"""
+    name = fi.qualname
+    if "." in name:
+        return True
+    for m in prog.modules.values():
+        def _abs(n) -> str:
+            if not n.level:
+                return n.module or ""
+            base = m.name.split(".")[: -n.level] if not getattr(m, "is_package", False) else m.name.split(".")[: len(m.name.split(".")) - n.level + 1]
+            return ".".join(base + ([n.module] if n.module else []))
+        visible = m.name == fi.module.name or any(isinstance(n, ast.ImportFrom) and _abs(n) == fi.module.name and any(a.name == name for a in n.names) for n in ast.walk(m.tree))
+        if not visible:
+            continue
+        for n in ast.walk(m.tree):
+            if isinstance(n, ast.Call) and isinstance(n.func, ast.Name) and n.func.id == name:
+                return True
+    return False
+
+
+def insert_conflict_rule(rep, rid: str, s, prog) -> None:
+    low = " ".join(s.text.lower().split())
+    name = s.func.qualname
+    mod = (s.modifier or "").upper()
+    oc = re.search(r"\bon conflict\b(.*)$", low, flags=re.S)
+    verdict, detail = True, "plain INSERT: a key conflict raises (IntegrityError) instead of overwriting the row"
+    if s.kind == "REPLACE" or "REPLACE" in mod:
+        verdict, detail = False, "INSERT OR REPLACE overwrites an existing row without the version check: a stale writer's copy silently replaces the row and its version restarts"
+    elif mod and "IGNORE" not in mod and "ABORT" not in mod and "FAIL" not in mod and "ROLLBACK" not in mod:
+        verdict, detail = False, f"conflict modifier {mod} on a versioned table"
+    elif oc and "do update" in oc.group(1):
+        tail = oc.group(1)
+        w = re.search(r"\bwhere\b(.*?)(?=\breturning\b|$)", tail, flags=re.S)
+        guarded = bool(w) and re.search(r"\bversion\s*=\s*excluded\.version\b", w.group(1)) is not None
+        bump = re.search(r"\bversion\s*=\s*(?:\w+\.)?version\s*\+\s*1\b", tail) is not None
+        if guarded and bump:
+            detail = "ON CONFLICT DO UPDATE guarded by `version = EXCLUDED.version`, version + 1"
+        elif not _has_call_site(prog, s.func):
+            detail = "unguarded ON CONFLICT DO UPDATE, but the function has no call site (dead code)"
+        else:
+            verdict, detail = False, "ON CONFLICT DO UPDATE without `WHERE <table>.version = EXCLUDED.version` / version + 1: the conflicting row is overwritten unconditionally"
+    rep.check(verdict, rid, f"{name} INSERT {s.table} never overwrites unchecked", detail, s.file, s.line, disc=f"{name}:insert-conflict")
+
+
 def run(ctx, rep) -> None:
     prog = ctx.prog
     thorough = rep.tier == "thorough"
@@ -141,6 +186,12 @@ def run(ctx, rep) -> None:
     ups = [s for s in core if s.kind == "UPDATE"]
     for s in ups:
         cas_update_rule(rep, "C07.R1", s, "stage" if s.table == STAGE_T else "task", prog)
+    # an INSERT that resolves a key conflict by overwriting (OR REPLACE / REPLACE INTO / ON CONFLICT DO UPDATE without the
+    # version conjunct) writes the row without the version check: the stale writer wins silently and the token restarts
+    ins = [s for s in core if s.kind in ("INSERT", "REPLACE")]
+    for s in ins:
+        insert_conflict_rule(rep, "C07.R1", s, prog)
+    rep.floor("INSERT statements on stage/task tables", len([s for s in ins if sqlshape.is_sqlite(s)]), 2)
     rep.floor("UPDATE statements on stage/task tables", len([s for s in ups if sqlshape.is_sqlite(s)]), 5)
     rep.count(core_statements=len(core), sql_statements=len(stmts))
     allowed = {
@@ -185,6 +236,7 @@ def run(ctx, rep) -> None:
     _r3_dataflow(ctx, rep)
     snapshot_writeback_rule(ctx, rep, "C07.R3")
     token_integrity_rule(ctx, rep, "C07.R1")
+    decision_read_rule(ctx, rep, "C07.R3", ("stabilize.handlers", "stabilize.recovery", "stabilize.orchestrator"))
 
     # ---- R4 no swallow ------------------------------------------------------------------------------
     _r4(ctx, rep)
@@ -265,6 +317,56 @@ def token_integrity_rule(ctx, rep, rid: str) -> None:
               if ok else "the task rows are read before the stage row: a reader can pair an OLD task list with the CURRENT version and pass the version check with stale data", rs.file, (task_sel[0].line if task_sel else rs.node.lineno), disc="read-order")
 
 
+def _whole_ctx_src(v, carriers: dict | None = None):
+    """source stage-context expression when `v` evaluates to (a copy / superset of) some object's WHOLE context, else None"""
+    t = norm(v)
+    if isinstance(v, ast.Attribute) and v.attr == "context":
+        return t
+    if isinstance(v, ast.Call) and norm(v.func) in ("dict", "copy.copy", "copy.deepcopy", "deepcopy") and len(v.args) == 1:
+        return _whole_ctx_src(v.args[0], carriers)
+    if isinstance(v, ast.Call) and isinstance(v.func, ast.Attribute) and v.func.attr == "copy" and not v.args:
+        return _whole_ctx_src(v.func.value, carriers)
+    if isinstance(v, ast.Dict):
+        for k, val in zip(v.keys, v.values):
+            if k is None:
+                r = _whole_ctx_src(val, carriers)
+                if r:
+                    return r
+        return None
+    if isinstance(v, ast.BinOp) and isinstance(v.op, ast.BitOr):
+        return _whole_ctx_src(v.left, carriers) or _whole_ctx_src(v.right, carriers)
+    if isinstance(v, ast.Name) and carriers and v.id in carriers:
+        return carriers[v.id][0]
+    return None
+
+
+_STAGE_SOURCES = ("retrieve_stage", "stage_by_id", "stage_by_ref_id", "get_stage", "parent", "first_before_stages", "first_after_stages")
+
+
+def _is_stage_expr(f, src: str) -> bool:
+    """is `<base>.context` the context of a StageExecution?  Decided from the annotation of the base name (parameter of the
+    function or an enclosing one), else from its definition (read from the store / loop over `.stages`), else from its name."""
+    base = src[: -len(".context")]
+    if not base.replace("_", "").isalnum():
+        return "stage" in base.lower()
+    fn = f
+    while fn is not None:
+        a = fn.node.args
+        for p_ in list(a.posonlyargs) + list(a.args) + list(a.kwonlyargs):
+            if p_.arg == base and p_.annotation is not None:
+                return "StageExecution" in norm(p_.annotation)
+        fn = fn.parent
+    for n in ast.walk(f.node):
+        if isinstance(n, ast.AnnAssign) and isinstance(n.target, ast.Name) and n.target.id == base:
+            return "StageExecution" in norm(n.annotation)
+        if isinstance(n, ast.Assign) and any(isinstance(t, ast.Name) and t.id == base for t in n.targets) and isinstance(n.value, ast.Call):
+            if norm(n.value.func).split(".")[-1] in _STAGE_SOURCES:
+                return True
+        if isinstance(n, (ast.For, ast.comprehension)) and isinstance(n.target, ast.Name) and n.target.id == base and "stages" in norm(n.iter):
+            return True
+    return "stage" in base.lower() or base in ("s", "target", "upstream", "child", "sibling")
+
+
 def snapshot_writeback_rule(ctx, rep, rid: str) -> None:
     """No WHOLE-context snapshot of a stage is written back onto a stage object: `snap = dict(X.context)` ... `Y.context.update(snap)`
     (also through a default argument of a deferred mutation) overwrites every key another writer changed since X was read -
@@ -279,19 +381,9 @@ def snapshot_writeback_rule(ctx, rep, rid: str) -> None:
         snaps: dict = {}
         for a in ast.walk(f.node):
             if isinstance(a, ast.Assign) and len(a.targets) == 1 and isinstance(a.targets[0], ast.Name):
-                v = a.value
-                t = norm(v)
-                src = None
-                if isinstance(v, ast.Call) and norm(v.func) == "dict" and len(v.args) == 1 and norm(v.args[0]).endswith(".context"):
-                    src = norm(v.args[0])
-                elif isinstance(v, ast.Call) and t.endswith(".context.copy()"):
-                    src = t[: -len(".copy()")]
-                elif isinstance(v, ast.Dict) and len(v.keys) == 1 and v.keys[0] is None and norm(v.values[0]).endswith(".context"):
-                    src = norm(v.values[0])
+                src = _whole_ctx_src(a.value) if not isinstance(a.value, ast.Attribute) else None
                 if src:
                     snaps[a.targets[0].id] = (src, a.lineno)
-        if not snaps:
-            continue
         # names that carry a snapshot into a deferred mutation: parameters whose default is a snapshot variable
         carriers = dict(snaps)
         for g in ast.walk(f.node):
@@ -305,16 +397,22 @@ def snapshot_writeback_rule(ctx, rep, rid: str) -> None:
                     if isinstance(d_, ast.Name) and d_.id in snaps:
                         carriers[p_.arg] = snaps[d_.id]
         for c in ast.walk(f.node):
-            if isinstance(c, ast.Call) and isinstance(c.func, ast.Attribute) and c.func.attr == "update" and norm(c.func.value).endswith(".context") and c.args and isinstance(c.args[0], ast.Name) and c.args[0].id in carriers:
-                n += 1
-                src, line = carriers[c.args[0].id]
+            if isinstance(c, ast.Call) and isinstance(c.func, ast.Attribute) and c.func.attr == "update" and norm(c.func.value).endswith(".context") and c.args:
+                src = _whole_ctx_src(c.args[0], carriers)
                 tgt = norm(c.func.value)
-                rep.fail(rid, f"{f.qualname}: whole-context snapshot written back", f"`{c.args[0].id}` is a copy of `{src}` (line {line}) - every key of that earlier read is written onto `{tgt}`: whatever another handler stored on the stage in between "
+                if src is None or src == tgt or not _is_stage_expr(f, src):
+                    continue
+                n += 1
+                line = carriers[c.args[0].id][1] if isinstance(c.args[0], ast.Name) and c.args[0].id in carriers else c.lineno
+                rep.fail(rid, f"{f.qualname}: whole-context snapshot written back", f"`{norm(c.args[0])}` is (a copy of) the whole `{src}` (line {line}) - every key of that earlier read is written onto `{tgt}`: whatever another handler stored on the stage in between "
                          "(a buffered persistent signal, join bookkeeping) is overwritten, and keys the re-arm has just cleared come back; the version check passes because the target object is fresh",
                          f.file, c.lineno, disc=f"snapshot:{f.qualname}:{src}")
-            if isinstance(c, ast.Assign) and any(norm(t_).endswith(".context") for t_ in c.targets) and isinstance(c.value, ast.Name) and c.value.id in carriers and carriers[c.value.id][0] != norm(c.targets[0]):
-                n += 1
-                rep.fail(rid, f"{f.qualname}: context replaced by a snapshot of another read", f"`{norm(c)}`", f.file, c.lineno, disc=f"snapshot-assign:{f.qualname}")
+            tgts = c.targets if isinstance(c, ast.Assign) else [c.target] if isinstance(c, ast.AugAssign) else []
+            if tgts and any(norm(t_).endswith(".context") for t_ in tgts):
+                src = _whole_ctx_src(c.value, carriers)
+                if src is not None and src != norm(tgts[0]) and _is_stage_expr(f, src):
+                    n += 1
+                    rep.fail(rid, f"{f.qualname}: context replaced by a snapshot of another read", f"`{norm(c)}` takes the whole `{src}`", f.file, c.lineno, disc=f"snapshot-assign:{f.qualname}")
     rep.count(snapshot_writebacks=n)
     if not n:
         rep.ok(rid, "no whole-context snapshot is written back onto a stage", "scanned stabilize.handlers for dict(X.context) / X.context.copy() flowing into Y.context.update(...)", "src/stabilize/handlers", 0)
@@ -487,3 +585,108 @@ def _reraises(h: ast.ExceptHandler) -> tuple[bool, str]:
         if isinstance(s, ast.If) and "max_retries - 1" in norm(s.test) and any(isinstance(x, ast.Raise) for x in s.body):
             return True, "bounded retry: re-raises on the last attempt"
     return False, ""
+
+
+# ---- decision and write on the same read -----------------------------------------------------------------------------
+_REREADS = ("retrieve_stage",)
+
+
+def _own_nodes(fn_node):
+    """nodes of fn_node's own scope (nested defs / lambdas excluded)"""
+    stack = list(ast.iter_child_nodes(fn_node))
+    while stack:
+        n = stack.pop()
+        yield n
+        if isinstance(n, (ast.FunctionDef, ast.AsyncFunctionDef, ast.Lambda, ast.ClassDef)):
+            continue
+        stack.extend(ast.iter_child_nodes(n))
+
+
+def decision_read_rule(ctx, rep, rid: str, modules: tuple = ("stabilize.handlers",), floor: int = 0) -> int:
+    """A stage that is stored under conditions tested on it must be stored from the SAME read those conditions were tested on.
+    `if X.status ...: X = store.retrieve_stage(id); X.context[...] = ...; store_stage(X)` passes the version check with the
+    fresh token although the decision was taken on the older copy: a status change committed in between (the task suspending,
+    a cancel) is neither seen nor refused - the check-then-act pair that optimistic locking exists to prevent."""
+    from ..dom import canon_fact, parents, raw_conditions_at
+    from ..statuspred import status_set
+
+    prog = ctx.prog
+    T = ctx.st
+    ALL = frozenset(T.members)
+    n_sites = 0
+
+    def every(fi):
+        yield fi
+        for n in ast.walk(fi.node):
+            if isinstance(n, (ast.FunctionDef, ast.AsyncFunctionDef)) and n is not fi.node:
+                yield n
+
+    for f in prog.all_functions():
+        if not any(f.module.name == m or f.module.name.startswith(m + ".") for m in modules):
+            continue
+        seen_nodes = set()
+        for g in every(f):
+            gnode = g.node if hasattr(g, "node") else g
+            if id(gnode) in seen_nodes:
+                continue
+            seen_nodes.add(id(gnode))
+            own = list(_own_nodes(gnode))
+            rereads: dict = {}
+            for a in own:
+                if isinstance(a, ast.Assign) and len(a.targets) == 1 and isinstance(a.targets[0], ast.Name) and isinstance(a.value, ast.Call) and norm(a.value.func).split(".")[-1] in _REREADS:
+                    rereads.setdefault(a.targets[0].id, []).append(a)
+            if not rereads:
+                continue
+            par = parents(gnode)
+            for c in own:
+                if not (isinstance(c, ast.Call) and isinstance(c.func, ast.Attribute) and c.func.attr in ("store_stage", "execute_atomic", "execute_atomic_critical")):
+                    continue
+                stored = [a for a in c.args if isinstance(a, ast.Name)] + [k.value for k in c.keywords if k.arg in ("stage", "source_stage") and isinstance(k.value, ast.Name)]
+                for x in stored:
+                    rr = [a for a in rereads.get(x.id, []) if getattr(a, "_ord", a.lineno) < getattr(c, "_ord", c.lineno)]
+                    if not rr:
+                        continue
+                    n_sites += 1
+                    last = max(rr, key=lambda a: getattr(a, "_ord", a.lineno))
+                    cut = getattr(last, "_ord", last.lineno)
+                    before, after = set(), set()
+                    sb = sa = ALL
+                    where = {}
+                    for t, truth in raw_conditions_at(gnode, c):
+                        if not any(isinstance(m_, ast.Attribute) and isinstance(m_.value, ast.Name) and m_.value.id == x.id for m_ in ast.walk(t)):
+                            continue
+                        st = par.get(id(t))
+                        pos = getattr(st, "_ord", getattr(t, "lineno", 0))
+                        for fact in canon_fact(t, truth):
+                            if f"{x.id}." not in fact[0]:
+                                continue
+                            try:
+                                fe = ast.parse(fact[0], mode="eval").body
+                                ss = status_set(fe, f"{x.id}.status", T)
+                            except SyntaxError:
+                                ss = None
+                            if ss is not None:
+                                ss = ss if fact[1] else ALL - ss
+                                if pos < cut:
+                                    sb = sb & ss
+                                    where.setdefault("status", getattr(t, "lineno", 0))
+                                else:
+                                    sa = sa & ss
+                                continue
+                            (before if pos < cut else after).add(fact)
+                            where.setdefault(fact, getattr(t, "lineno", 0))
+                    if not sa <= sb:
+                        # the status decision of the earlier copy is not re-established on the copy that is stored
+                        before.add((f"{x.id}.status in {sorted(sb)}", True))
+                        where[(f"{x.id}.status in {sorted(sb)}", True)] = where.get("status", 0)
+                    stale = sorted(before - after)
+                    name = getattr(gnode, "name", "?")
+                    rep.check(not stale, rid, f"{f.qualname}:{name} stores `{x.id}` from the read its conditions were tested on",
+                              "re-read precedes every condition on the stored object" if not stale else
+                              f"`{x.id}` is re-read at line {last.lineno} after the decision " + ", ".join(f"`{'' if tr else 'not '}{tx}` (line {where[(tx, tr)]})" for tx, tr in stale) +
+                              " was taken on the earlier copy and is stored with the fresh version: a change committed in between is neither seen nor refused",
+                              f.file, c.lineno, disc=f"decision-read:{f.qualname}:{name}:{x.id}")
+    rep.count(decision_read_sites=n_sites)
+    if floor:
+        rep.floor("stores of a re-read stage (decision/read coherence)", n_sites, floor)
+    return n_sites
